@@ -285,3 +285,173 @@ Print Assumptions C13_ws1_answers.
 Print Assumptions C13_ws1_parallel_run_completes.
 Print Assumptions C13_old_par_refuted.
 Print Assumptions C13_old_name_refuted.
+
+(* ==========================================================================================
+   C13 at TREE level (appended): the abstract input above is what the code derives from the REAL
+   syntax trees.  Model/HierTree.v (workspace = list of (file stem, dumped tree)), proofs in
+   Proofs/HierTreeProofs.v, witnesses from real dumps in Proofs/HierTreeWitness.v.
+     HierTree.forest_input_of_ws ws   (class name, parent reference, names of the root table) per document
+     HierTree.files_of_ws ws          its (name, parent) part = the files the builders see
+     HierTree.class_tree ws           = build (files_of_ws ws)
+     HierTreeProofs.declares_parent ws a b
+                                      some document's header (first class / module child of the root) is
+                                      called a and names b as its parent, both ignoring case
+   ========================================================================================== *)
+From GoldV Require Tokens Lexer AstKinds Tree Encase SymTab Scoping Annot DefTree RangeBase RangeTop AnnotProofs
+                   DefTreeProofs HierTree HierTreeProofs HierTreeWitness.
+
+Theorem C13_tree_input_refines :
+  forall ws, Forall (fun d => AnnotProofs.regular (snd d)) ws ->
+    HierTree.forest_input_of_ws ws =
+    map (fun d => HierTreeProofs.hier_of_entity (AnnotProofs.entity_of_tree (snd d))) ws.
+Proof. exact HierTreeProofs.hier_input_refines. Qed.
+
+Theorem C13_tree_relation :
+  forall ws a b, R (HierTree.files_of_ws ws) a b <-> HierTreeProofs.declares_parent ws a b.
+Proof. exact HierTreeProofs.R_tree. Qed.
+
+(* supertypes of class c = the class named by the parent reference of c's header, ignoring case *)
+Theorem C13_tree_class_super :
+  forall ws c q, HierTreeProofs.ws_forest ws -> length ws <= 5000 ->
+    (In q (supertypes (HierTree.class_tree ws) c) <-> HierTreeProofs.declares_parent ws (upper c) q) /\
+    length (supertypes (HierTree.class_tree ws) c) <= 1.
+Proof. exact HierTreeProofs.C13_class_super_tree. Qed.
+
+(* subtypes of class c = exactly the classes whose header names c *)
+Theorem C13_tree_class_sub :
+  forall ws c x, HierTreeProofs.ws_forest ws -> length ws <= 5000 ->
+    (In x (subtypes (HierTree.class_tree ws) c) <-> HierTreeProofs.declares_parent ws x (upper c)) /\
+    NoDup (subtypes (HierTree.class_tree ws) c).
+Proof. exact HierTreeProofs.C13_class_sub_tree. Qed.
+
+(* "the class with key k declares nm" on the trees: the root table AstAnnotator builds for the document
+   whose stem is k knows the name (any symbol type, ignoring case, the latest declaration) *)
+Theorem C13_tree_member_declares :
+  forall ws nm k,
+    declares (HierTree.decls_of_ws ws) (upper nm) k <->
+    exists d, HierTree.doc_of ws k = Some d /\ DefTree.find_in (HierTree.root_of d) nm <> None.
+Proof. exact HierTreeProofs.declares_tree. Qed.
+
+Theorem C13_tree_member_up :
+  forall ws c nm, HierTreeProofs.ws_forest ws -> length ws <= 5000 -> HierTreeProofs.named_by_stem ws ->
+    exists r, member_supertypes (HierTree.class_tree ws) (HierTree.decls_of_ws ws) c nm = Ok r /\
+      forall ka, option_map (key_of (HierTree.class_tree ws)) r = Some ka <->
+                 nearest_up (HierTree.files_of_ws ws) (HierTree.decls_of_ws ws) (upper nm) (upper c) ka.
+Proof. exact HierTreeProofs.C13_member_up_tree. Qed.
+
+Theorem C13_tree_member_down :
+  forall ws c nm, HierTreeProofs.ws_forest ws -> length ws <= 5000 -> HierTreeProofs.named_by_stem ws ->
+    exists r, member_subtypes (HierTree.class_tree ws) (HierTree.decls_of_ws ws) c nm = Ok r /\
+      forall kx, In kx (map (key_of (HierTree.class_tree ws)) r) <->
+                 frontier (HierTree.files_of_ws ws) (HierTree.decls_of_ws ws) (upper nm) (upper c) kx.
+Proof. exact HierTreeProofs.C13_member_down_tree. Qed.
+
+Theorem C13_tree_order_independent :
+  forall ws ws', HierTreeProofs.ws_forest ws -> length ws <= 5000 -> Permutation ws ws' ->
+    same_rel (HierTree.class_tree ws) (HierTree.class_tree ws').
+Proof. exact HierTreeProofs.C13_order_independent_tree. Qed.
+
+Theorem C13_tree_case_independent :
+  forall ws ws', HierTreeProofs.ws_forest ws -> length ws <= 5000 -> HierTreeProofs.recased_ws ws ws' ->
+    same_rel (HierTree.class_tree ws) (HierTree.class_tree ws').
+Proof. exact HierTreeProofs.C13_case_independent_tree. Qed.
+
+(* a prepared item: selection range = range of the declared name of a visited declaration node of the
+   document, range = that node's range; inside one another for trees with well-formed ranges (C08) *)
+Theorem C13_tree_item_ranges :
+  forall ws d p it, HierTree.prepare ws d p = DefTree.Ans (HierTree.ROk [it]) ->
+    exists n, In n (Annot.visit_seq false (snd d)) /\
+      HierTree.i_sel it = Annot.name_range (snd n) /\ HierTree.i_range it = Tree.nrange (snd n) /\
+      (HierTree.i_name it = Tree.nident (snd n) \/
+       (HierTree.i_name it = Scoping.s_self /\ Annot.dkind_at n = Some Annot.DClass)) /\
+      forall L, RangeTop.Forall_nodes (RangeTop.NodeWf L) (snd d) -> RangeBase.inside (HierTree.i_sel it) (HierTree.i_range it).
+Proof. exact HierTreeProofs.hier_item_ranges. Qed.
+
+(* where an item is prepared, regular trees: on the class header / a field declaration / a method's name *)
+Theorem C13_tree_prepare_class :
+  forall ws stem t p i h,
+    AnnotProofs.regular t -> DefTree.flat_methods t = true -> DefTree.is_dot t = false ->
+    find AnnotProofs.is_header (Tree.nchildren t) = Some h -> Tree.is_kind AstKinds.KAstClass h = true ->
+    HierTreeProofs.at_top_child t p i h ->
+    DefTree.find_in (Annot.root_table_of false t) (Tree.nident h) = Some (AnnotProofs.decl_sym h) ->
+    HierTree.prepare ws (stem, t) p = DefTree.Ans (HierTree.ROk [HierTree.item_of_node HierTree.IClass stem h]).
+Proof. exact HierTreeProofs.hier_prepare_char_class. Qed.
+
+Theorem C13_tree_prepare_field :
+  forall ws stem t p i c h d',
+    AnnotProofs.regular t -> DefTree.flat_methods t = true -> DefTree.is_dot t = false ->
+    find AnnotProofs.is_header (Tree.nchildren t) = Some h ->
+    Tree.is_kind AstKinds.KAstGlobalVariableDeclaration c = true ->
+    HierTreeProofs.at_top_child t p i c ->
+    DefTree.find_in (Annot.root_table_of false t) (Tree.nident c) = Some (AnnotProofs.decl_sym c) ->
+    HierTree.doc_of ws (upper (Tree.nident h)) = Some d' ->
+    HierTree.prepare ws (stem, t) p = DefTree.Ans (HierTree.ROk [HierTree.item_of_node HierTree.IField (fst d') c]).
+Proof. exact HierTreeProofs.hier_prepare_char_field. Qed.
+
+Theorem C13_tree_prepare_method :
+  forall ws stem t p i m j nm h mt d',
+    AnnotProofs.regular t -> DefTree.flat_methods t = true ->
+    find AnnotProofs.is_header (Tree.nchildren t) = Some h ->
+    DefTree.descend p t = [(i, m); (j, nm)] -> DefTree.is_method_node m = true -> DefTree.is_dot m = false ->
+    nth_error (Annot.method_tables_of false t)
+              (length (filter DefTree.is_method_node (firstn i (Tree.nchildren t)))) = Some mt ->
+    DefTree.find_in mt (Tree.nident nm) = None ->
+    DefTree.find_in (Annot.root_table_of false t) (Tree.nident nm) = Some (AnnotProofs.decl_sym m) ->
+    HierTree.doc_of ws (upper (Tree.nident h)) = Some d' ->
+    HierTree.prepare ws (stem, t) p = DefTree.Ans (HierTree.ROk [HierTree.item_of_node HierTree.IFunc (fst d') m]).
+Proof. exact HierTreeProofs.hier_prepare_char_method. Qed.
+
+(* ---- non-vacuity: a 3-class workspace of REAL dumps (aKa; aKb (AKA); aKc (aKb)) ---- *)
+Example C13_tree_ws_regular : Forall (fun d => AnnotProofs.regular (snd d)) HierTreeWitness.ht_ws.
+Proof. exact HierTreeWitness.ht_ws_regular. Qed.
+
+Example C13_tree_ws_hypotheses :
+  HierTreeProofs.ws_forest HierTreeWitness.ht_ws /\ length HierTreeWitness.ht_ws <= 5000 /\
+  HierTreeProofs.named_by_stem HierTreeWitness.ht_ws.
+Proof. exact HierTreeWitness.ht_ws_hypotheses. Qed.
+
+Example C13_tree_ws_input :
+  HierTree.forest_input_of_ws HierTreeWitness.ht_ws =
+  [ (#"aKa", None, [#"aKa"; #"self"; #"Fld"; #"Foo"]);
+    (#"aKb", Some #"AKA", [#"aKb"; #"self"; #"fld"; #"Foo"]);
+    (#"aKc", Some #"aKb", [#"aKc"; #"self"; #"Calc"; #"foo"]) ].
+Proof. exact HierTreeWitness.ht_ws_input. Qed.
+
+Example C13_tree_ws_answers :
+  supertypes (HierTree.class_tree HierTreeWitness.ht_ws) #"akb" = [#"AKA"] /\
+  subtypes (HierTree.class_tree HierTreeWitness.ht_ws) #"AKA" = [#"AKB"] /\
+  HierTreeWitness.names_stems (HierTree.supertypes_of HierTreeWitness.ht_ws (HierTree.class_tree HierTreeWitness.ht_ws)
+     (HierTree.mkItem #"foo" HierTree.IFunc #"aKc" HierTreeWitness.r0 HierTreeWitness.r0)) = [(#"Foo", #"aKb")] /\
+  HierTreeWitness.names_stems (HierTree.subtypes_of HierTreeWitness.ht_ws (HierTree.class_tree HierTreeWitness.ht_ws)
+     (HierTree.mkItem #"FLD" HierTree.IField #"aKa" HierTreeWitness.r0 HierTreeWitness.r0)) = [(#"fld", #"aKb")].
+Proof.
+  destruct HierTreeWitness.ht_ws_answers as (H1 & H2 & _ & _ & H5 & _ & H7 & _). repeat split; assumption.
+Qed.
+
+Example C13_tree_ws_prepare :
+  HierTree.prepare HierTreeWitness.ht_ws (#"aKb", HierTreeWitness.ht_kb) (Lexer.mkPos 0 7) =
+    DefTree.Ans (HierTree.ROk [HierTree.mkItem #"aKb" HierTree.IClass #"aKb"
+       (Lexer.mkRange (Lexer.mkPos 0 6) (Lexer.mkPos 0 9)) (Lexer.mkRange (Lexer.mkPos 0 0) (Lexer.mkPos 0 15))]) /\
+  HierTree.prepare HierTreeWitness.ht_ws (#"aKc", HierTreeWitness.ht_kc) (Lexer.mkPos 6 6) =
+    DefTree.Ans (HierTree.ROk [HierTree.mkItem #"foo" HierTree.IFunc #"aKc"
+       (Lexer.mkRange (Lexer.mkPos 6 5) (Lexer.mkPos 6 8)) (Lexer.mkRange (Lexer.mkPos 6 0) (Lexer.mkPos 7 7))]).
+Proof. destruct HierTreeWitness.ht_ws_prepare as (H1 & _ & H3). split; assumption. Qed.
+
+Print Assumptions C13_tree_input_refines.
+Print Assumptions C13_tree_relation.
+Print Assumptions C13_tree_class_super.
+Print Assumptions C13_tree_class_sub.
+Print Assumptions C13_tree_member_declares.
+Print Assumptions C13_tree_member_up.
+Print Assumptions C13_tree_member_down.
+Print Assumptions C13_tree_order_independent.
+Print Assumptions C13_tree_case_independent.
+Print Assumptions C13_tree_item_ranges.
+Print Assumptions C13_tree_prepare_class.
+Print Assumptions C13_tree_prepare_field.
+Print Assumptions C13_tree_prepare_method.
+Print Assumptions C13_tree_ws_regular.
+Print Assumptions C13_tree_ws_hypotheses.
+Print Assumptions C13_tree_ws_input.
+Print Assumptions C13_tree_ws_answers.
+Print Assumptions C13_tree_ws_prepare.
